@@ -2,6 +2,10 @@
 import random
 import dbggen, dbgcommon
 
+# observations the property does not speak about: a difference in these alone breaks the correspondence
+# but is not an input on which the property fails (reported with no-failing-input-found)
+AUX = ('cmds differs',)
+
 ASSUMPTIONS = ["the machine and breakpoint list after `<command>; registers; break list; exit` are compared completely (all 65,536 words) with the model, which is proved to change only the named target"]
 
 BOUNDARY = [0, 1, 0x2FFF, 0x3000, 0x3001, 0x7FFF, 0x8000, 0x8001, 0xFDFE, 0xFDFF, 0xFE00, 0xFE01, 0xFFFE, 0xFFFF]
@@ -89,7 +93,7 @@ def correspondence(ctx, violations, known_hits):
     rnd, specs = gen(ctx.tier, ctx.seed)
     cases, tags = dbgcommon.make_cases(rnd, specs)
     profiles = ("debug",)
-    r = dbgcommon.run_dbg_cases(ctx, cases, tags, violations, profiles,
+    r = dbgcommon.run_dbg_cases(ctx, cases, tags, violations, profiles, aux=AUX,
                                 note="model: writes outside [origin, xFE00) are refused and change nothing (C13_refuse); sums are formed without wrap (C13_no_wrap)")
     ctx.cleanup()
     return dbgcommon.coverage(r,
